@@ -89,6 +89,11 @@ def _assigned_values(name: str, fn: ast.FunctionDef) -> List[ast.AST]:
                     for a, b in zip(t.elts, n.value.elts):
                         if isinstance(a, ast.Name) and a.id == name:
                             out.append(b)
+                elif isinstance(t, ast.Tuple) and isinstance(n.value, ast.IfExp) and isinstance(n.value.body, ast.Tuple) and isinstance(n.value.orelse, ast.Tuple) and len(t.elts) == len(n.value.body.elts) == len(n.value.orelse.elts):
+                    # a, b = (x1, y1) if c else (x2, y2)
+                    for i, a in enumerate(t.elts):
+                        if isinstance(a, ast.Name) and a.id == name:
+                            out.append(ast.copy_location(ast.IfExp(test=n.value.test, body=n.value.body.elts[i], orelse=n.value.orelse.elts[i]), n.value))
         elif isinstance(n, ast.AnnAssign) and isinstance(n.target, ast.Name) and n.target.id == name and n.value is not None:
             out.append(n.value)
     return out
@@ -566,6 +571,42 @@ def b2(repo: Repo) -> RuleResult:
                         res.bad(Finding("B2", "compiler/bitproto/errors.py", st.lineno, "_TokenBound.format_default_description", "", "no return path formats the file path", tag="template-no-filepath-branch"))
     if not found:
         res.unsure("B2: _TokenBound.format_default_description vanished")
+
+    # (h) the indent of a definition is measured from the last NEWLINE seen: every production that
+    # consumes a NEWLINE records its position on every path that returns normally
+    try:
+        from .flows import compiler_flow
+        from .normal import V as _V
+        from .normal import show as _show
+        from .pyflow import single_atom as _sa
+
+        n_nl = 0
+        for name, act in g.actions.items():
+            for lhs, alt in g.alts_of_action(name):
+                ks = [i + 1 for i, s_ in enumerate(alt) if s_ == "NEWLINE"]
+                if not ks:
+                    continue
+                n_nl += 1
+                k = ks[-1]
+                fl = compiler_flow(repo, "Parser", "parser.py", inline=lambda n_, f_: n_ in ("set_last_newline_pos",) or n_.startswith("_"), primitives=("push_comment", "clear_comment_block", "collect_comment_block"))
+                prm = [a.arg for a in act.node.args.args]
+                paths = fl.run(act.node, {prm[0]: _V("self"), prm[1]: _V("p")})
+                for p_ in paths:
+                    if p_.done != "return":
+                        continue
+                    sets = [e for e in p_.effects if e.kind == "setattr" and e.name.endswith("last_newline_pos")]
+                    val = sets[-1].args[-1] if sets else None
+                    a_ = _sa(val) if val is not None else None
+                    good = a_ is not None and a_[0] == "mcall" and a_[1] == "lexpos" and len(a_[2]) == 2 and _show(a_[2][0]) == "p" and a_[2][1].const_value() == k
+                    res.inst(part="newline-pos", action=name, alternative=" ".join(alt), records=_show(val) if val is not None else None)
+                    if not good:
+                        from .pyflow import show_lit as _sl
+
+                        res.bad(Finding("B2", PARSER, act.node.lineno, f"Parser.{name}", _show(val) if val is not None else "", f"`{lhs} : {' '.join(alt)}` consumes the NEWLINE (symbol {k}) but a path that returns normally (under {[_sl(k_, t_) for k_, t_ in p_.guards] or 'no condition'}) " + ("records `" + _show(val) + "` as" if val is not None else "does not record") + " the position of the last newline: the indent of the next definition is measured from an earlier line", witness="uint8 a = 1; // trailing comment\n    uint8 b = 2;  -> false indent warning for b", tag=f"{name}:newline-pos"))
+        if n_nl == 0:
+            res.unsure("B2: no production consumes NEWLINE")
+    except Inconclusive as e:
+        res.unsure(f"B2: newline position: {e}")
     return res
 
 
@@ -831,21 +872,36 @@ def b3(repo: Repo) -> RuleResult:
             res.unsure(f"B3: {uns} vanished")
             continue
         fn = act.node
-        # isinstance(p[1], K) -> raise  pairs
-        handled: List[str] = []
-        for st in fn.body:
-            if isinstance(st, ast.If) and isinstance(st.test, ast.Call) and isinstance(st.test.func, ast.Name) and st.test.func.id == "isinstance":
-                a0, a1 = st.test.args
-                if src_of(a0) == "p[1]" and always_exits(st.body) and isinstance(st.body[-1], ast.Raise):
-                    exc = st.body[-1].exc
-                    cname = None
-                    if isinstance(exc, ast.Call):
-                        f = exc.func
-                        cname = f.value.id if isinstance(f, ast.Attribute) and isinstance(f.value, ast.Name) else (f.id if isinstance(f, ast.Name) else None)
-                    cands = [k for k in model.all_classes() if k.name == cname]
-                    if cands and model.is_subclass(cands[0], parser_error):
-                        names = [x.id for x in ([a1] if isinstance(a1, ast.Name) else getattr(a1, "elts", [])) if isinstance(x, ast.Name)]
-                        handled.extend(names)
+        # what the action does for a p[1] of a given class: every path must end in a ParserError
+        from .emit import class_decider
+        from .flows import compiler_flow
+        from .normal import V as _V
+
+        def rejected_as(kind: str) -> Tuple[Optional[bool], str]:
+            """(every path raises a ParserError subclass, what was seen)"""
+            try:
+                fl = compiler_flow(repo, "Parser", "parser.py", inline=lambda n_, f_: n_.startswith("_"), decide=class_decider(repo, {"p[1]": kind}), module_funcs=True)
+                prm = [a_.arg for a_ in fn.args.args]
+                paths = fl.run(fn, {prm[0]: _V("self"), prm[1]: _V("p")})
+            except Inconclusive as e:
+                return None, str(e)
+            seen = []
+            ok = bool(paths)
+            for p_ in paths:
+                if p_.done != "raise":
+                    ok = False
+                    seen.append("returns normally")
+                    continue
+                rs = [e.name for e in p_.effects if e.kind == "raise"]
+                cname = rs[-1].split(".")[0] if rs else ""
+                cands = [k_ for k_ in model.all_classes() if k_.name == cname]
+                seen.append(cname)
+                if not cands or not model.is_subclass(cands[0], parser_error):
+                    if any(k_[0] == "isinstance" for k_, _ in p_.guards):
+                        return None, f"an isinstance test on the path is not decided by the class {kind}: {p_.guard_text()}"
+                    ok = False
+            return ok, ", ".join(sorted(set(seen)))
+
         for alt in g.prods[uns].alts:
             if len(alt) != 1:
                 res.unsure(f"B3: {uns} alternative `{' '.join(alt)}` is not a single symbol")
@@ -867,13 +923,10 @@ def b3(repo: Repo) -> RuleResult:
                     res.bad(Finding("B3", PARSER, fn.lineno, f"Parser.{act.name}", f"{uns} : {s}", f"`{s}` yields no value and its own action does not reject it outside file scope, so it is silently accepted here", tag=f"{uns}:{s}"))
                 continue
             for k in kinds:
-                cands = [c for c in model.all_classes() if c.name == k]
-                covered = False
-                if cands:
-                    for h in handled:
-                        hc = [c for c in model.all_classes() if c.name == h]
-                        if hc and model.is_subclass(cands[0], hc[0]):
-                            covered = True
+                covered, seen_ = rejected_as(k)
+                if covered is None:
+                    res.unsure(f"B3: {uns}: `{s}` of kind {k}: {seen_}")
+                    continue
                 if not covered:
                     res.bad(
                         Finding(
@@ -1073,6 +1126,70 @@ def b4(repo: Repo) -> RuleResult:
 # --------------------------------------------------------------------------
 
 
+def _lookup_search(fn: ast.FunctionDef) -> Dict[str, Any]:
+    """The search _lookup_referenced_member performs, whichever way it is written:
+    {'form', 'node', 'iter' (what is iterated), 'first_hit' (the first non-None
+    get_member result is what is returned), 'other_returns'} or {'unknown': why}."""
+
+    def is_none_const(e: Optional[ast.AST]) -> bool:
+        return e is None or (isinstance(e, ast.Constant) and e.value is None)
+
+    def has_get_member(e: ast.AST) -> bool:
+        return any(isinstance(c, ast.Call) and isinstance(c.func, ast.Attribute) and c.func.attr == "get_member" for c in ast.walk(e))
+
+    loops = [n for n in ast.walk(fn) if isinstance(n, ast.For) and any(has_get_member(st) for st in n.body)]
+    rets = [n for n in ast.walk(fn) if isinstance(n, ast.Return)]
+    if len(loops) == 1:
+        lp = loops[0]
+        ok = False
+        for r in [n for n in ast.walk(lp) if isinstance(n, ast.Return)]:
+            facts = facts_at(r, fn)
+            if any((not truth and src_of(t).endswith("is None")) or (truth and src_of(t).endswith("is not None")) for t, truth in facts):
+                ok = True
+        other = [r for r in rets if not any(r is x for x in ast.walk(lp)) and not is_none_const(r.value)]
+        return {"form": "loop", "node": lp, "iter": lp.iter, "first_hit": ok, "other_returns": other}
+    if loops:
+        return {"unknown": f"{len(loops)} loops call get_member"}
+    # generator form: next((x for x in <results> if x is not None), None) with <results> = (scope.get_member(*names) for scope in <iterable>)
+    local: Dict[str, ast.AST] = {}
+    for n in ast.walk(fn):
+        if isinstance(n, ast.Assign) and len(n.targets) == 1 and isinstance(n.targets[0], ast.Name):
+            local[n.targets[0].id] = n.value
+
+    def deref(e: ast.AST) -> ast.AST:
+        seen = 0
+        while isinstance(e, ast.Name) and e.id in local and seen < 5:
+            e = local[e.id]
+            seen += 1
+        return e
+
+    nexts = [r for r in rets if isinstance(r.value, ast.Call) and isinstance(r.value.func, ast.Name) and r.value.func.id == "next" and r.value.args]
+    if len(nexts) != 1:
+        return {"unknown": "neither a single loop over scopes nor a single next(...) over a generator"}
+    call = nexts[0].value
+    outer = deref(call.args[0])
+    if not isinstance(outer, (ast.GeneratorExp, ast.ListComp)) or len(outer.generators) != 1:
+        return {"unknown": f"`{src_of(call)}` does not draw from a generator expression"}
+    g0 = outer.generators[0]
+    first_hit = len(call.args) == 2 and is_none_const(call.args[1])
+    if has_get_member(outer.elt):
+        # one generator: (scope.get_member(..) for scope in REV if ...) -> the filter cannot see the result: not a first-non-None search
+        inner_iter = g0.iter
+        first_hit = False
+        node = outer
+    else:
+        inner = deref(g0.iter)
+        if not isinstance(inner, (ast.GeneratorExp, ast.ListComp)) or len(inner.generators) != 1 or not has_get_member(inner.elt) or inner.generators[0].ifs:
+            return {"unknown": f"`{src_of(g0.iter)}` is not a plain generator of get_member results"}
+        v = g0.target.id if isinstance(g0.target, ast.Name) else None
+        flt_ok = len(g0.ifs) == 1 and src_of(g0.ifs[0]).replace(" ", "") in (f"{v}isnotNone",)
+        first_hit = first_hit and flt_ok and isinstance(outer.elt, ast.Name) and outer.elt.id == v
+        inner_iter = inner.generators[0].iter
+        node = inner
+    other = [r for r in rets if r is not nexts[0] and not is_none_const(r.value)]
+    return {"form": "generator", "node": node, "iter": deref(inner_iter), "first_hit": first_hit, "other_returns": other}
+
+
 @rule("B5", "definitions become visible when complete; lookup walks the current file's scopes innermost first; dotted names descend through scopes")
 def b5(repo: Repo) -> RuleResult:
     res = RuleResult("B5", floor=8)
@@ -1103,13 +1220,13 @@ def b5(repo: Repo) -> RuleResult:
     if fn is None:
         res.unsure("B5: Parser._lookup_referenced_member vanished")
     else:
-        loops = [n for n in ast.walk(fn) if isinstance(n, ast.For)]
-        res.inst(part="lookup", loops=len(loops))
-        if len(loops) != 1:
-            res.unsure("B5: _lookup_referenced_member is not a single loop over scopes")
+        sr = _lookup_search(fn)
+        res.inst(part="lookup", form=sr.get("form"), iterable=src_of(sr["iter"]) if sr.get("iter") is not None else None)
+        if "unknown" in sr:
+            res.unsure(f"B5: _lookup_referenced_member: {sr['unknown']}")
         else:
-            lp = loops[0]
-            it = lp.iter
+            it = sr["iter"]
+            lp = sr["node"]
             reversed_ok = False
             src = None
             if isinstance(it, ast.Subscript) and isinstance(it.slice, ast.Slice) and it.slice.lower is None and it.slice.upper is None and it.slice.step is not None and src_of(it.slice.step) == "-1":
@@ -1117,25 +1234,15 @@ def b5(repo: Repo) -> RuleResult:
             elif isinstance(it, ast.Call) and isinstance(it.func, ast.Name) and it.func.id == "reversed" and len(it.args) == 1:
                 reversed_ok, src = True, it.args[0]
             if not reversed_ok:
-                res.bad(Finding("B5", PARSER, lp.lineno, "Parser._lookup_referenced_member", src_of(it), "scopes are not searched innermost first (the stack must be walked in reverse)", witness="message A { enum E : uint1 {} message B { enum E : uint2 {}  E e = 1 } }", tag="lookup-order"))
+                res.bad(Finding("B5", PARSER, lp.lineno, "Parser._lookup_referenced_member", src_of(it), "scopes are not searched innermost first (the stack must be walked in reverse)", witness="message A { enum E : uint1 {} message B { enum E : uint2 {}  E e = 1 } }  -> e would be 1 bit wide", tag="lookup-order"))
             else:
                 s = src_of(src) if src is not None else ""
                 if "scope_stack_in_current_proto" not in s:
                     res.bad(Finding("B5", PARSER, lp.lineno, "Parser._lookup_referenced_member", s, "lookup walks more than the current file's scopes (an importing file's names would leak into the imported file)", tag="lookup-slice"))
-            # first non-None returned
-            rets = [n for n in ast.walk(lp) if isinstance(n, ast.Return)]
-            ok = False
-            for r in rets:
-                facts = facts_at(r, fn)
-                if any((not truth and src_of(t).endswith("is None")) or (truth and src_of(t).endswith("is not None")) for t, truth in facts):
-                    ok = True
-            if not ok:
+            if not sr["first_hit"]:
                 res.bad(Finding("B5", PARSER, lp.lineno, "Parser._lookup_referenced_member", "", "the loop does not return the first scope's hit", tag="lookup-first"))
-            # nothing is returned around the loop except "not found"
-            for r in [n for n in ast.walk(fn) if isinstance(n, ast.Return)]:
-                inside = any(r is x for x in ast.walk(lp))
-                if not inside and r.value is not None and not (isinstance(r.value, ast.Constant) and r.value.value is None):
-                    res.bad(Finding("B5", PARSER, r.lineno, "Parser._lookup_referenced_member", src_of(r), "a definition is returned by a lookup outside the innermost-first scope walk: a file-level (or otherwise farther) definition can win over a nearer one that shadows it", witness="message A { message H { message X {} } message B { H.X f = 1 } }  next to a top-level message H { message X {} }", tag="lookup-shortcut"))
+            for r in sr["other_returns"]:
+                res.bad(Finding("B5", PARSER, r.lineno, "Parser._lookup_referenced_member", src_of(r), "a definition is returned by a lookup outside the innermost-first scope walk: a file-level (or otherwise farther) definition can win over a nearer one that shadows it", witness="message Outer { enum E : uint2 {} message In { E e = 1 } } with a file-level enum E : uint1 {}", tag="lookup-bypass"))
             # names = identifier.split(".")
             split_ok = any(isinstance(n, ast.Call) and isinstance(n.func, ast.Attribute) and n.func.attr == "split" and n.args and isinstance(n.args[0], ast.Constant) and n.args[0].value == "." for n in ast.walk(fn))
             if not split_ok:
@@ -1219,6 +1326,76 @@ def b5(repo: Repo) -> RuleResult:
             else:
                 d = sorted(got)[0]
                 res.bad(Finding("B5", PARSER, fn.lineno, "Parser.p_import", str(sorted(got)), f"for `{lhs} : {' '.join(alt)}` the proto is pushed under `{d}`, expected `{want}`", witness='import lib "lib.bitproto"  then  lib.Type', tag=f"import-name:{L}"))
+
+    # (e) the reverse lookup the generators qualify imported definitions with: a name is
+    # returned only for the entry that IS the member (same object), never for a like-named one
+    try:
+        from .flows import compiler_flow
+        from .normal import V as _V
+        from .pyflow import show_lit
+        from .pymodel import get_model as _gm
+
+        m_ = _gm(repo)
+        fi = m_.func("_ast.py", "Scope.get_name_by_member")
+        prm = [a.arg for a in fi.node.args.args]
+        fl = compiler_flow(repo, "Scope", "_ast.py")
+        paths = fl.run(fi.node, {prm[0]: _V("self"), prm[1]: _V("member")})
+        n_named = 0
+        for p_ in paths:
+            if p_.done != "return" or p_.ret is None or show(p_.ret) == "None":
+                continue
+            n_named += 1
+            # generator form: next((name for name, member_ in self.members.items() if member_ is member), None)
+            rn = getattr(p_, "ret_node", None)
+            rv = rn.value if isinstance(rn, ast.Return) else rn
+            if isinstance(rv, ast.Call) and isinstance(rv.func, ast.Name) and rv.func.id == "next" and rv.args and isinstance(rv.args[0], (ast.GeneratorExp, ast.ListComp)):
+                ge = rv.args[0]
+                g0 = ge.generators[0] if len(ge.generators) == 1 else None
+                okg = False
+                if g0 is not None and isinstance(g0.target, ast.Tuple) and len(g0.target.elts) == 2 and all(isinstance(x, ast.Name) for x in g0.target.elts) and src_of(g0.iter).replace(" ", "") == "self.members.items()":
+                    kn, vn = g0.target.elts[0].id, g0.target.elts[1].id
+                    idt = [c_ for c_ in g0.ifs if isinstance(c_, ast.Compare) and len(c_.ops) == 1 and isinstance(c_.ops[0], ast.Is) and {src_of(c_.left), src_of(c_.comparators[0])} == {vn, prm[1]}]
+                    okg = bool(idt) and isinstance(ge.elt, ast.Name) and ge.elt.id == kn
+                res.inst(part="reverse-lookup", returns=src_of(rv), ok=okg)
+                if okg:
+                    continue
+                if g0 is None or not isinstance(ge.elt, ast.Name):
+                    res.unsure(f"B5: get_name_by_member: `{src_of(rv)}` is not a recognised search")
+                    continue
+            ident = [k for k, t in p_.guards if t and k[0] == "is" and any(show(x) == "member" for x in k[1:] if hasattr(x, "terms"))]
+            other = None
+            for k in ident:
+                other = [x for x in k[1:] if hasattr(x, "terms") and show(x) != "member"]
+            # the value compared by identity and the name returned come from the same entry of self.members
+            ok = bool(ident)
+            if ok:
+                loops = [e for e in p_.effects if e.kind == "loop"]
+                ok = False
+                for lp in loops:
+                    t_ = getattr(lp.node, "target", None)
+                    it_ = getattr(lp.node, "iter", None)
+                    if isinstance(t_, ast.Tuple) and len(t_.elts) == 2 and all(isinstance(x, ast.Name) for x in t_.elts) and it_ is not None and src_of(it_).replace(" ", "") in ("self.members.items()",):
+                        kn, vn = t_.elts[0].id, t_.elts[1].id
+                        if show(p_.ret) == kn and other and show(other[0]) == vn:
+                            ok = True
+            if not ok and ident and other:
+                from .pyflow import single_atom as _sa
+
+                oa = _sa(other[0])
+                if oa is not None and oa[0] == "item" and show(oa[1]) == "self.members" and oa[2] == p_.ret:
+                    ok = True
+                elif oa is not None and oa[0] == "mcall" and oa[1] == "get" and len(oa[2]) >= 2 and show(oa[2][0]) == "self.members" and oa[2][1] == p_.ret:
+                    ok = True
+                else:
+                    res.unsure(f"B5: get_name_by_member: the identity test `{show_lit(ident[0], True)}` is not related to the returned name `{show(p_.ret)}` in a recognised way")
+                    continue
+            res.inst(part="reverse-lookup", returns=show(p_.ret), under=[show_lit(k, t) for k, t in p_.guards], ok=ok)
+            if not ok:
+                res.bad(Finding("B5", fi.rel, fi.node.lineno, fi.qual, show(p_.ret), f"get_name_by_member returns `{show(p_.ret)}` on a path that has not established that the entry under that name is the member itself (guards: {[show_lit(k, t) for k, t in p_.guards] or 'none'}): a like-named definition of another file is taken for it", witness='two imports whose proto names collide (import legacy "v1.bitproto" where v1 declares `proto telemetry` and the importer also has a member `telemetry`): generated code refers to telemetry.Frame instead of legacy.Frame', tag="get_name_by_member:identity"))
+        if n_named == 0:
+            res.unsure("B5: Scope.get_name_by_member returns no name on any path")
+    except Inconclusive as e:
+        res.unsure(f"B5: {e}")
     return res
 
 
